@@ -16,7 +16,8 @@ ASSUMPTIONS = [
     "solvor.cp_encoder.solve_sat); when the encoder returns INFEASIBLE before calling solve_sat (it found an empty "
     "clause) the CNF is taken to be unsatisfiable",
     "boolean numbering of the named variables is read from IntVar.bool_vars",
-    "all variables are named; empty domains (lb > ub) are outside the generator (excluded region)",
+    "unnamed variables are encoded like named ones (compared on all declared variables; the implementation's decode "
+    "is compared on the named ones); empty domains (lb > ub) are outside the generator (excluded region)",
     "cumulative is generated with durations, demands and capacity >= 0 (the encoder's minimal-subset argument "
     "assumes non-negative demands)",
 ]
@@ -36,7 +37,8 @@ def gen_cases(rng, n, big):
         if len(cons) > 1 and rng.random() < 0.6:
             cons = [rng.choice(cons)]
         hints = K.gen_hints(rng, vars_, plant) if rng.random() < 0.2 else None
-        cases.append({"vars": vars_, "cons": cons, "hints": hints, "limit": rng.choice([1, 1, 1, 3]), "solver": "sat"})
+        cases.append({"vars": vars_, "cons": cons, "hints": hints, "limit": rng.choice([1, 1, 1, 3]), "solver": "sat",
+                      "hidden": (K.gen_hidden(rng, vars_) if hints is None else [])})
     return cases
 
 
@@ -113,7 +115,8 @@ def judgement(case, pcs, out, d):
                 continue
             tset = set(tm)
             want = [[v for v, b in lm if b in tset] for lm in o["litmap"]]
-            if any(len(w) != 1 for w in want) or [w[0] for w in want] != list(s):
+            hid = set(case.get("hidden") or [])
+            if any(len(w) != 1 for w in want) or [None if i in hid else w[0] for i, w in enumerate(want)] != list(s):
                 res.append(("decode_mismatch", f"decode_sat_solution gave {s} for a SAT model whose true value "
                             f"literals are {want}", False))
                 break
@@ -152,7 +155,7 @@ def run_cases(ctx, cases, attribute=True):
         elif trace is False:
             ctx.tdiv(FN, {"case": case, "proto": pcs, "captured_cnf": (out[1]["cnf"] if out[0] == "ok" else None),
                           "mirror_cnf": d["mirror"]})
-        ctx.case([case["vars"], case["cons"]], K.nontrivial(case),
+        ctx.case([case["vars"], case["cons"], case.get("hidden") or []], K.nontrivial(case),
                  {"case": case, "clauses": (len(out[1]["cnf"]) if out[0] == "ok" and out[1]["cnf"] is not None else None),
                   "cp_solutions": len(d["sols"]), "cnf_projected_models": (len(d["proj"]) if d["proj"] is not None else None)})
     if pending:
